@@ -263,6 +263,7 @@ var (
 func (w *World) teardown() {
 	e := w.Env
 	e.frozen.Store(true)
+	close(e.frozenCh)
 	simrt.Free()
 	w.stop()
 	if w.Client != nil {
